@@ -613,6 +613,14 @@ func init() {
 			r = append(r, inst(p, "VerifC06", "hevc", "cenc", []string{"16", "8"}[i%2], sz, "false", "false"))
 		}
 		r = append(r, inst(p, "VerifC06", "hevc", "cenc", "8", "16", "false", "true"))
+		// cbcs on video: one or two slices per sample (NAL unit k=1 is an SEI), sizes around the block and pattern boundaries
+		for i, sz := range []string{"5", "21", "37", "60,4,40", "181", "200,3,190;24"} {
+			if tier != "thorough" && i%2 == 0 && i > 0 {
+				continue
+			}
+			r = append(r, inst(p, "VerifC06", "avc", "cbcs", "16", sz, "false", "false"))
+		}
+		r = append(r, inst(p, "VerifC06", "avc", "cbcs", "16", "40,2,37", "true", "true"))
 		// init and media segment decoded separately (IV size of senc guessed): 1 or 2 samples
 		for _, x := range [][3]string{{"avc", "8", "16"}, {"avc", "16", "16"}, {"avc", "16", "123;124"}, {"avc", "8", "130;16,3"}, {"aac", "16", "32;33"}, {"aac", "8", "17"}} {
 			r = append(r, inst(p, "VerifC06", x[0], "cenc", x[1], x[2], "false", "true"))
